@@ -42,7 +42,16 @@ def scenarios(tier):
             for keys in ("same", "diff"):
                 calls = [[("g", 1)], [("g", 1)]] if keys == "same" else [[("g", 1)], [("g", 2)]]
                 out.append(("%s|%s|%s" % (be, warm, keys), be, warm, calls))
+    # automatically versioned functions (the run-time dependency check applies): two unrelated functions, and two
+    # callers sharing a nested call tree (top1 -> mid -> leaf, top2 -> mid -> leaf)
+    for be in (("mem", "fs+cache-all") if tier != "thorough" else ("mem", "fs", "fs+cache-all", "fs+cache-one")):
+        out.append(("%s|cold|auto-unrelated" % be, be, "cold", [[("solo_a", 1)], [("solo_b", 2)]]))
+        out.append(("%s|cold|nested-shared" % be, be, "cold", [[("top1", 1)], [("top2", 1)]]))
+    out.append(("mem|store|nested-shared", "mem", "store", [[("top1", 1)], [("top2", 1)]]))
     if tier == "thorough":
+        out.append(("fs+cache-all|store|nested-shared", "fs+cache-all", "store", [[("top1", 1)], [("top2", 1)]]))
+        out.append(("mem|cold|nested-vs-inner", "mem", "cold", [[("top1", 1)], [("mid", 1)]]))
+        out.append(("fs+cache-all|cold|nested-vs-inner", "fs+cache-all", "cold", [[("top1", 1)], [("mid", 1)]]))
         out.append(("fs+cache-one|cold|3threads", "fs+cache-one", "cold", [[("g", 1)], [("g", 1)], [("g", 2)]]))
         out.append(("fs+cache-all|store|3threads", "fs+cache-all", "store", [[("g", 1)], [("g", 2)], [("g", 1)]]))
         out.append(("fs+cache-one|cold|two-fns", "fs+cache-one", "cold", [[("g", 1), ("h", 1)], [("h", 1), ("g", 1)]]))
@@ -183,10 +192,39 @@ def opcode_codes():
     return frozenset(codes)
 
 
-def run_once(scn, prefix, opcodes=False, gran="full"):
+def provenance(calls):
+    """Recorded provenance of every call in the call trees of the scenario vs the static call tree."""
+    from ..fixtures import c09fx as fx
+
+    seen = []
+    for c in calls:
+        for fn, arg in c:
+            for k in fx.closure(fn, arg):
+                if k not in seen:
+                    seen.append(k)
+    qn = lambda f: getattr(fx, f).fn_reference().qualified_name  # noqa
+    for fn, arg in seen:
+        mm = getattr(fx, fn).memento(arg)
+        if mm is None:
+            return ("no-memento", "no memento recorded for %s(%s)" % (fn, arg))
+        got_inv = [(i.fn_reference.qualified_name, i.arg_hash) for i in mm.invocation_metadata.invocations]
+        want_inv = [(qn(c), getattr(fx, c).fn_reference().with_args(arg).arg_hash) for c in fx.CALLS[fn]]
+        got_dep = sorted(d.qualified_name for d in mm.function_dependencies)
+        want_dep = sorted({qn(f) for f, _ in fx.closure(fn, arg)})
+        short = lambda L: [a.split(":")[-1].split("#")[0] for a in L]  # noqa
+        if got_inv != want_inv:
+            return ("invocations", "invocations of %s(%s): recorded %s, the body called %s" % (fn, arg, short(a for a, _ in got_inv), short(a for a, _ in want_inv)))
+        if got_dep != want_dep:
+            return ("dependencies-%s" % ("missing" if set(want_dep) - set(got_dep) else "extra"),
+                    "dependencies of %s(%s): recorded %s, transitively invoked %s" % (fn, arg, short(got_dep), short(want_dep)))
+    return None
+
+
+def run_once(scn, prefix, opcodes=False, gran="full", prov=False):
     """One execution. Returns (trace, observation token, violation or None)."""
     from .. import audit, sched
     from ..core import HarnessError
+    from ..fixtures import c09fx as fx
 
     b = prepare(scn)
     name, be, warm, calls = scn
@@ -208,12 +246,12 @@ def run_once(scn, prefix, opcodes=False, gran="full"):
             if s.exc[i] is not None:
                 bad = ("escaped-error", "thread %d: %r escaped to the caller" % (i, s.exc[i]))
                 break
-            want = [("val-%s" if fn == "g" else "other-%s") % arg for fn, arg in c]
+            want = [fx.expected(fn, arg) for fn, arg in c]
             if s.ret[i] != want:
                 bad = ("wrong-value", "thread %d got %r, expected %r" % (i, s.ret[i], want))
                 break
     if bad is None:
-        distinct = {(fn, arg) for c in calls for fn, arg in c}
+        distinct = {k for c in calls for fn, arg in c for k in fx.closure(fn, arg)}
         for fn, arg in sorted(distinct):
             n = sum(1 for bd in bodies if bd[0] == fn and bd[1] == arg)
             want = 0 if warm != "cold" else 1
@@ -227,21 +265,24 @@ def run_once(scn, prefix, opcodes=False, gran="full"):
         elif (summ["resident"], summ["usage"]) not in sequential_outcomes(scn):
             bad = ("cache-not-sequential", "final cache %s / usage %s is not what any sequential order leaves (%s)"
                    % (summ["resident"], summ["usage"], sequential_outcomes(scn)))
+    if bad is None and prov:
+        bad = provenance(calls)
     token = "%s|%s|%s|%s" % (name, [repr(r) for r in s.ret], len(bodies), (summ["resident"], summ["usage"]) if summ else None)
     return s.trace, token, bad, s.npoints
 
 
 def explore_subtree(args):
-    """DFS below one prefix with the remaining preemption budget (iterative context bounding)."""
+    """DFS below one prefix with the remaining preemption budget (iterative context bounding).
+    args = (scenario, prefix, bound, opts) ; opts = {opcodes, cap, gran, prov, prop}"""
     from .. import sched
 
-    scn, prefix, bound, opcodes, cap = args[:5]
-    gran = args[5] if len(args) > 5 else "full"
+    scn, prefix, bound, opts = args
+    opcodes, cap, gran, prov = opts.get("opcodes", False), opts.get("cap", 150), opts.get("gran", "full"), opts.get("prov", False)
     out = {"evaluations": 0, "transitions": 0, "traces": 0, "violations": [], "outcomes": set(), "points": 0, "caps": []}
     stack = [tuple(prefix)]
     while stack:
         p = stack.pop()
-        trace, token, bad, npoints = run_once(scn, p, opcodes, gran)
+        trace, token, bad, npoints = run_once(scn, p, opcodes, gran, prov)
         out["evaluations"] += 1
         out["traces"] += 1
         out["transitions"] += len(trace)
@@ -254,7 +295,8 @@ def explore_subtree(args):
                 sig += "|gran=" + gran
             choices = [c for (_, c, _) in trace]
             out["violations"].append((sig, bad[1] + "\nscenario=%s schedule(choice vector)=%s" % (scn[0], _compress(choices)),
-                                      {"scenario": scn[0], "tier_scn": list(map(str, scn[:3])), "calls": scn[3], "choices": choices, "opcodes": opcodes, "gran": gran}))
+                                      {"scenario": scn[0], "tier_scn": list(map(str, scn[:3])), "calls": scn[3], "choices": choices,
+                                       "opcodes": opcodes, "gran": gran, "prov": prov}))
             continue
         stack.extend(sched.children(trace, len(p), bound))
         if cap and out["evaluations"] >= cap:
@@ -262,7 +304,7 @@ def explore_subtree(args):
     out["outcomes"] = sorted(out["outcomes"])
     out["scenario"] = scn[0]
     # whatever is left of this subtree goes back to the queue as new tasks
-    more = [(scn, p, bound, opcodes, cap) + tuple(args[5:]) for p in stack]
+    more = [(scn, p, bound, opts) for p in stack]
     return out, more
 
 
@@ -301,18 +343,18 @@ def run(ctx):
         trace, token, bad, npoints = run_once(scn, ())
         per[scn[0]] = {"points_default_schedule": npoints, "choice_points": len(trace)}
         b = 1 if (len(scn[3]) > 2 or any(len(c) > 1 for c in scn[3])) and thorough else bound
-        tasks.append((scn, (), b, False, CAP))  # from the default schedule (bound 0) upwards
+        tasks.append((scn, (), b, {"cap": CAP}))  # from the default schedule (bound 0) upwards
     # bound 2 at runner granularity for the cold-store scenarios (single-flight protocol)
     for scn in scns:
         if scn[2] == "cold" and len(scn[3]) == 2 and (thorough or scn[0] == "fs+cache-one|cold|same"):
             trace, _, _, _ = run_once(scn, (), False, "runner")
             per[scn[0]]["choice_points_runner_granularity"] = len(trace)
-            tasks.append((scn, (), 2, False, CAP, "runner"))
+            tasks.append((scn, (), 2, {"cap": CAP, "gran": "runner"}))
     if thorough:
         # opcode-granularity points inside MemoryCache for the cache scenarios, bound 1
         for scn in scns:
             if "cache" in scn[1] and len(scn[3]) == 2 and all(len(c) == 1 for c in scn[3]):
-                tasks.append((scn, (), 1, True, CAP))
+                tasks.append((scn, (), 1, {"cap": CAP, "opcodes": True}))
     if ctx.seed:
         import random
 
@@ -332,7 +374,7 @@ def run(ctx):
 def replay(ctx, art):
     a = art["artefact"]
     scn = next((s for s in scenarios("thorough") if s[0] == a["scenario"]), None)
-    trace, token, bad, npoints = run_once(scn, tuple(a["choices"]), a.get("opcodes", False), a.get("gran", "full"))
+    trace, token, bad, npoints = run_once(scn, tuple(a["choices"]), a.get("opcodes", False), a.get("gran", "full"), a.get("prov", False))
     print("observation:", token)
     print("REPLAY property=C09 result=%s" % (bad,))
     return 1 if bad else 0
